@@ -14,6 +14,7 @@ import (
 	"sort"
 	"strings"
 	"time"
+	"unicode/utf8"
 
 	"github.com/gnolang/gno/tm2/pkg/amino"
 )
@@ -106,17 +107,140 @@ func (c *checker) rtCause(re callRes, orig, back reflect.Value) string {
 	return c.valueCause("value differs after round trip", orig.Elem(), back.Elem())
 }
 
-// valueCause names what differs between two values that should be equal (leaf of the first structural difference,
-// without the path, so that one defect seen through many holder types is one cause).
+// valueCause names what differs between two values that should be equal: the leaf of the first amino-relevant
+// difference, without the path, so that one defect seen through many holder types is one cause.
 func (c *checker) valueCause(what string, a, b reflect.Value) string {
-	d := structDiff(a, b, "", 0)
-	if i := strings.Index(d, ": "); i >= 0 {
-		d = d[i+2:]
-	}
-	if d == "" {
-		d = "no difference in exported fields"
+	d := "?"
+	if rec := catch(func() { d = c.aminoDiff(a, b, 0) }); rec != nil {
+		d = "diff panics"
 	}
 	return "[[" + what + ": " + d + "]] "
+}
+
+func catch(f func()) (rec any) {
+	defer func() { rec = recover() }()
+	f()
+	return nil
+}
+
+// encAny: concrete type + canonical amino bytes of an arbitrary (sub)value (pointers and interfaces stripped, a nil
+// pointer standing for the zero value), or the failure text without the stack.
+func (c *checker) encAny(v reflect.Value) string {
+	v, ok := derefAll(v)
+	if !ok {
+		return "nil interface"
+	}
+	r := guard(func() ([]byte, error) {
+		p := reflect.New(v.Type())
+		p.Elem().Set(v)
+		return c.cdc.MarshalReflect(p.Interface())
+	})
+	if r.failed() {
+		w := r.why()
+		if i := strings.Index(w, " @ "); i >= 0 {
+			w = w[:i]
+		}
+		return v.Type().String() + "!" + w
+	}
+	return v.Type().String() + "=" + string(r.bz)
+}
+
+// derefAll strips interfaces and pointers; a nil pointer stands for the zero value of its element type (amino encodes
+// both alike); ok=false for a nil interface.
+func derefAll(v reflect.Value) (reflect.Value, bool) {
+	for {
+		switch v.Kind() {
+		case reflect.Interface:
+			if v.IsNil() {
+				return v, false
+			}
+			v = v.Elem()
+		case reflect.Pointer:
+			if v.IsNil() {
+				v = reflect.Zero(v.Type().Elem())
+			} else {
+				v = v.Elem()
+			}
+		default:
+			return v, true
+		}
+	}
+}
+
+// aminoDiff descends into the first component whose amino encoding differs (so differences amino does not see --
+// nil vs empty, *T vs T inside an interface, unexported state -- are never reported) and describes the leaf.
+func (c *checker) aminoDiff(a, b reflect.Value, depth int) string {
+	if depth > 40 {
+		return "too deep"
+	}
+	a, aok := derefAll(a)
+	b, bok := derefAll(b)
+	if !aok || !bok {
+		if aok == bok {
+			return "nil interfaces"
+		}
+		return "nil interface vs non-nil"
+	}
+	if a.Type() != b.Type() {
+		return fmt.Sprintf("concrete type %v vs %v", a.Type(), b.Type())
+	}
+	rt := a.Type()
+	if rt == timeType {
+		return "time differs"
+	}
+	var info *amino.TypeInfo
+	catch(func() { info, _ = c.cdc.GetTypeInfo(rt) })
+	if info != nil && info.IsAminoMarshaler {
+		repr := func(v reflect.Value) (reflect.Value, bool) {
+			p := reflect.New(rt)
+			p.Elem().Set(v)
+			outs := p.MethodByName("MarshalAmino").Call(nil)
+			return outs[0], outs[1].IsNil()
+		}
+		ra, oka := repr(a)
+		rb, okb := repr(b)
+		if !oka || !okb {
+			return "MarshalAmino fails"
+		}
+		return c.aminoDiff(ra, rb, depth+1)
+	}
+	switch rt.Kind() {
+	case reflect.Struct:
+		if info == nil {
+			return "struct differs"
+		}
+		for _, f := range info.Fields {
+			fa, fb := a.Field(f.Index), b.Field(f.Index)
+			if c.encAny(fa) != c.encAny(fb) {
+				return c.aminoDiff(fa, fb, depth+1)
+			}
+		}
+		return "struct differs only as a whole"
+	case reflect.Slice, reflect.Array:
+		if rt.Elem().Kind() == reflect.Uint8 {
+			return "bytes differ"
+		}
+		if a.Len() != b.Len() {
+			return fmt.Sprintf("list length %d vs %d", a.Len(), b.Len())
+		}
+		for i := 0; i < a.Len(); i++ {
+			if c.encAny(a.Index(i)) != c.encAny(b.Index(i)) {
+				return c.aminoDiff(a.Index(i), b.Index(i), depth+1)
+			}
+		}
+		return "list differs only as a whole"
+	case reflect.String:
+		if va, vb := utf8.ValidString(a.String()), utf8.ValidString(b.String()); va != vb {
+			return "string differs: malformed unicode on one side"
+		}
+		return "string differs"
+	case reflect.Bool:
+		return "bool differs"
+	case reflect.Float32, reflect.Float64:
+		return "float differs"
+	default:
+		return rt.Kind().String() + " differs"
+	}
 }
 
 func (c *checker) note(class, s string) {
@@ -147,6 +271,7 @@ func signature(detail string) string {
 		if i := strings.Index(d, "]] "); i >= 0 {
 			d = d[2:i]
 			d = reQuoted.ReplaceAllString(d, "Q")
+			d = reType.ReplaceAllString(d, "T")
 			d = reNum.ReplaceAllString(d, "N")
 			return strings.Join(strings.Fields(d), " ")
 		}
